@@ -11,17 +11,43 @@ NOT_APPLICABLE = {
     'C05': 'a variational inequality between two numerical evaluations; nothing structural in the source corresponds to it',
     'C08': 'numerical agreement of two algorithms and finiteness at extreme rates: quantifies over floating-point values',
     'C09': 'numerical invariance under re-description of the cell; reduction and centering are numerical searches',
-    'C12': 'eigen-decomposition identities (sum rule, positive semidefinite loss tensors) of computed numbers',
     'C19': 'outcome of a numerical lattice reduction over arbitrary supercells; not a shape property',
     'C20': 'exactness of orbits and invariant bases for every point group is the outcome of numerical search '
            '(SVD null spaces, tolerance comparisons); not a shape property',
-    'C22': 'exactness of a numerical quadrature and Brillouin-zone membership of computed points',
     'C25': 'orthonormality / completeness of numerically constructed bases',
-    'C27': 'completeness of a search over group operations and permutations for arbitrary occupations',
 }
 
 # id -> (technique, level text, level note, design ref)
 CLAIMS = {
+    'C12': ('sibling comparison of the rate-matrix assembly with diffusivity / elastodiffusion (normal form), data-flow rules for the '
+            'matrix handed to the symmetric eigen-solver, small axis typing ({site, mode}) of the mode-strength contraction, '
+            'relative-threshold rule for the equilibrium mode, conservation rule for the merged / appended mode tensors',
+            'Static, exhaustive over Interstitial.losstensors: decides that the matrix diagonalised is the symmetrised rate matrix '
+            'as assembled in diffusivity, untouched before it goes to eigh, that rates are the negated eigenvalues paired with '
+            'eigenvector columns, that the equilibrium mode is recognised relative to the rate scale, that a mode strength is '
+            'the site-by-site product eigenvector*sqrt(rho) contracted with the populated site dipoles and the loss tensor its '
+            'tensor square, and that every mode is merged into a mode of equal rate or appended. Necessary conditions of the '
+            'sum rule; positivity, semidefiniteness and the sum rule itself are numerical and NOT decided.',
+            'trusts CPython ast; the behaviour-preserving normal form (validated by tools/normtest.sh)', 'DESIGN.md §4 C12'),
+    'C22': ('conservation / tiling rules on the structured AST of reducekptmesh (base weight, consecutive shell slices, exactly-one '
+            'alternative per point under the conditions holding at each statement), whole-group orbit rule, degree agreement of the '
+            'match test with the tolerance, fold-loop pattern of fullkptmesh, cache discipline (alias + key analysis) of the mesh '
+            'routines',
+            'Static, exhaustive over Crystal.reducekptmesh / fullkptmesh: decides that every full-mesh point contributes the base '
+            'weight 1/N to exactly one reduced point (so weights are positive and sum to one), that orbits are taken under every '
+            'operation of the group and compared in the same degree as the tolerance, that every point is folded with every BZ '
+            'vector, and that no mesh is handed out from (or edited in) a cache. Brillouin-zone membership of the computed points '
+            'and exactness of the quadrature are numerical and NOT decided.',
+            'trusts CPython ast', 'DESIGN.md §4 C22'),
+    'C27': ('conditions-holding-at analysis of the acceptance in equivalencemap (full scatter through the operation\'s own index map '
+            'compared with the target), scatter / chemorder pairing in __imul__, permutation-test dominance in gengroup, '
+            'None-on-failure rule, cache discipline incl. invalidation of remembered derived values',
+            'Static, exhaustive over Supercell.gengroup / __imul__ / equivalencemap: decides that an operation is kept only if its '
+            'index map is a permutation built from every site, that occupations and ordered site lists move through the same '
+            'map, that an equivalence is accepted only when the complete transformed occupation equals the target and that the '
+            'reordering is read off the images, that (None, ...) is returned when nothing is accepted, and that any remembered '
+            'value is reset by every writer of its sources. Completeness of the group and of the search is NOT decided.',
+            'trusts CPython ast', 'DESIGN.md §4 C27'),
     'C07': ('linear-form comparison of the two star-set ranges, membership / exchange-symmetry shape of the omega1 pruning '
             'predicate, lock-step lint of the three parallel lists, data-flow rules for the LIMB back-fill (coverage of every '
             'kinetic star, symmetric end-state combination, reference classes by the balance engine on the normal form), '
